@@ -36,7 +36,7 @@ PROPS = {
                      'errors: on Err the final state is not constrained by the contract'],
     ),
     'C04': dict(
-        units=['driver', 'insert'],
+        units=['driver', 'insert', 'tblrebuild'],
         kani_quick=[],
         kani_thorough=['incremental_rebuild_monotone'],
         design_ref='DESIGN.md section 4 (U-REBUILD, U-DISP) and section 5 C04',
@@ -46,7 +46,8 @@ PROPS = {
                    'loop only stops after a pass in which container rebuild, table rebuild and row refresh all report no change, '
                    'in that order and with that pass\'s dirty ids and timestamp; rebuild runs whenever the union-find grew. '
                    '(insert) the real SortedWritesTable::serial_insert keeps "at most one live row per key, every live row indexed, every index entry live" for every batch of pending rows and every merge function. '
-                   'What one apply_rebuild pass does, and key uniqueness through parallel_insert / rebuild re-insertion, are assumed contracts.',
+                   '(tblrebuild) the table side of a non-incremental value-level rebuild (serial branch and one chunk of the parallel branch of SortedWritesTable::rebuild_nonincremental, lifted) stages, for EVERY row the rebuilder reports, the removal of the row stored under the old key and the insertion of the rebuilt row, and nothing else; merge() then deletes before it inserts (insert). '
+                   'The rebuilder\'s report itself over a row range (rebuild_buf; rebuild_subset is proved in unit disp), the incremental table rebuild, parallel_insert and the chunking of the parallel branch are assumed.',
         level_note='Trusted (A-db): Database::{merge_all, run_rule_set} keep a canonical database canonical unless the union-find grew; '
                    'a rebuild pass in which rebuild_containers, apply_rebuild and refresh_rows_for_values all report no change leaves '
                    'the database canonical; inc_counter/read_counter; Query::build_cached_plan does not touch table contents; '
@@ -95,7 +96,7 @@ PROPS = {
         assumptions=['only the flag algebra, merge path and row layout are proved; matching/extraction filters are assumed'],
     ),
     'C03': dict(
-        units=['semi', 'driver', 'merge', 'cont'],
+        units=['semi', 'driver', 'merge', 'cont', 'tblrebuild', 'insert'],
         kani_quick=[],
         kani_thorough=[],
         design_ref='DESIGN.md section 4 (U-SEMI, U-REBUILD, U-MERGE) and section 5 C03',
@@ -105,9 +106,9 @@ PROPS = {
                    'that atom\'s own timestamp column and mapped through atom_mapping; lemma: these variants accept every match with at least one new atom exactly '
                    'once and no all-old match; (b) run_rules_impl stamps every rule it ran with the timestamp of the run; (c) run_rules_inner, flush_updates_inner '
                    'and rebuild strictly advance the timestamp on every successful path, rebuild or not; (d) a row rewritten by the merge callback carries the '
-                   'incoming timestamp; (e) the dirty-id closure handed to the row refresh is closed under container nesting (unit cont). Equality of whole databases under --naive (a two-run relation) is not stated.',
-        level_note='Trusted: RuleSetBuilder::add_rule_from_cached_plan restricts the cached rule by the given constraints; rebuilt/refreshed rows are re-inserted '
-                   'with next_ts (core-relations rebuild.rs; assumed); Database contracts as for C04; merge-unit assumptions as for C05.',
+                   'incoming timestamp; (e) the dirty-id closure handed to the row refresh is closed under container nesting (unit cont); (f) (unit tblrebuild) every row re-inserted by the non-incremental table rebuild carries next_ts in its sort column (the insert_row! macro, expanded mechanically), so it counts as new; (g) (unit insert) the offsets vector that the timestamp-range search reads describes the sort column of every live row after serial_insert. Equality of whole databases under --naive (a two-run relation) is not stated.',
+        level_note='Trusted: RuleSetBuilder::add_rule_from_cached_plan restricts the cached rule by the given constraints; rows re-inserted by the INCREMENTAL table rebuild and by refresh_rows_for_values carry next_ts '
+                   '(core-relations rebuild.rs; assumed; the non-incremental path is proved); Database contracts as for C04; merge-unit assumptions as for C05.',
         assumptions=['engine-level re-timestamping during rebuild and the join engine honouring the constraints are assumed'],
     ),
     'C16': dict(
@@ -130,7 +131,7 @@ PROPS = {
         assumptions=['SortedWritesTable, Rows, ShardedHashTable, rehash, remove_stale: assumed (unsafe, hashbrown)'],
     ),
     'C01': dict(
-        units=['uf', 'merge', 'disp', 'driver'],
+        units=['uf', 'merge', 'disp', 'driver', 'tblrebuild'],
         kani_quick=[],
         kani_thorough=['id_axioms_u32', 'id_axioms_usize', 'uf_reset'],
         design_ref='DESIGN.md section 4 (U-UF, U-MIN, U-DISP, U-REBUILD) and section 5 C01',
@@ -140,7 +141,7 @@ PROPS = {
                    'lemma_unionid_matches_union_find ties the two contracts; (disp) a staged union row reaches the union-find unchanged, DisplacedTable reports the canonical '
                    'id of every id (get_row_column col 1 = root) and records exactly the displaced id; Canonicalizer::rebuild_val maps every id to its root and Canonicalizer::rebuild_subset (the incremental table rebuild) returns every scanned row with the rebuilt columns canonical, marking exactly the already-canonical rows as untouched; (driver) get_canon_in_uf/get_canon_repr return the representative; rebuild runs to the fixpoint signalled by container rebuild, '
                    'table rebuild and row refresh whenever the union-find grew, on every exit path. "No equality is invented" is proved at the union-find level; '
-                   '"none that follows is missed" is proved modulo the per-pass rebuild contract (Canonicalizer / SortedWritesTable::do_rebuild), which is assumed.',
+                   '"none that follows is missed" is proved modulo the per-pass rebuild contract; of that contract the table side of the non-incremental rebuild is proved (unit tblrebuild: every reported row is staged as remove-old-key + insert-rebuilt-row), Canonicalizer::rebuild_subset/rebuild_val are proved (disp), the rest (rebuild_buf scan, incremental path, Database::apply_rebuild plumbing) is assumed.',
         level_note='Trusted: the per-pass rebuild contract of core-relations (apply_rebuild rewrites every row to canonical ids and merges congruent rows), '
                    'plus the trusted bases of C17, C05, C16, C04.',
         assumptions=['one apply_rebuild pass canonicalises rows and merges congruent ones: assumed (unsafe row buffers, hashbrown)'],
